@@ -38,7 +38,7 @@ CLONE_IMPL = """impl Clone for %(T)s {
 }"""
 
 
-def name_types(G, clone=True):
+def name_types(G, clone=True, tryfrom=True):
     """DomainName, Label and their constants, with R12 (derive(Clone) -> assumed structural clone)."""
     T = G.src(TYPES)
     for c in ("DOMAINNAME_MAX_LEN", "LABEL_MAX_LEN"):
@@ -49,7 +49,8 @@ def name_types(G, clone=True):
     G.fired["R12"] = G.fired.get("R12", 0) + 2
     G.raw(CLONE_IMPL % {"T": "DomainName", "body": "DomainName { labels: self.labels.clone(), len: self.len }"})
     G.raw(CLONE_IMPL % {"T": "Label", "body": "Label { octets: self.octets.clone() }"})
-    G.raw("""impl vstd::std_specs::convert::TryFromSpecImpl<&[u8]> for Label {
+    if tryfrom:
+      G.raw("""impl vstd::std_specs::convert::TryFromSpecImpl<&[u8]> for Label {
     open spec fn obeys_try_from_spec() -> bool { false }
     open spec fn try_from_spec(v: &[u8]) -> Result<Self, Self::Error> { arbitrary() }
 }""")
